@@ -14,16 +14,18 @@ RD == INSTANCE ZipOpen WITH OBUG <- "none"
 VARIABLE A
 Sizes == { <<0, 0>>, <<3, 3>>, <<3, 2>>, <<Thr32 - 1, 2>>, <<Thr32, Thr32>>, <<Thr32 + 1, 2>>, <<Thr32 + 1, Thr32 + 1>>, <<2, Thr32>> }
 SmallSizes == { <<3, 3>>, <<3, 2>>, <<Thr32 + 1, 2>> }
-Ch(sz, forced, zlast, nother, lz64, lother, lzl, dd, k) ==
+Ch(sz, forced, zlast, nother, lz64, lother, lzl, dd, k, aes) ==
    [us |-> sz[1], cs |-> sz[2], forced |-> forced, zlast |-> zlast, nother |-> nother, lz64 |-> lz64, lother |-> lother,
-    lzl |-> lzl, dd |-> dd, nlen |-> k, crc |-> IF k = 1 THEN "c1" ELSE "c2"]
+    lzl |-> lzl, dd |-> dd, nlen |-> k, crc |-> IF k = 1 THEN "c1" ELSE "c2", aes |-> aes]
 \* (positions of records only matter when there is something to be placed relative to)
-Legal(c) == /\ (c.nother = 0 => ~c.zlast) /\ (~(c.lz64 /\ c.lother = 1) => ~c.lzl)
+Legal(c) == /\ (c.nother = 0 /\ c.aes = "none" => ~c.zlast) /\ (~(c.lz64 /\ (c.lother = 1 \/ c.aes # "none")) => ~c.lzl)
             /\ (c.dd \in {"sig64", "nosig64"} => c.lz64)
-FullChoices(k) == { c \in { Ch(sz, f, zl, no, lz, lo, lzl, dd, k) :
+            /\ (c.aes = "after" => c.nother = 1 \/ c.lother = 1)         \* (without other records "after" is "before")
+            /\ (c.aes # "none" => c.dd = "none" /\ c.cs >= 3)             \* (an encrypted entry is never shorter than its salt, verifier, code)
+FullChoices(k) == { c \in { Ch(sz, f, zl, no, lz, lo, lzl, dd, k, ae) :
                              sz \in Sizes, f \in SUBSET {"us", "cs", "off"}, zl \in BOOLEAN, no \in {0, 1}, lz \in BOOLEAN,
-                             lo \in {0, 1}, lzl \in BOOLEAN, dd \in DDs } : Legal(c) }
-FewChoices(k) == { c \in { Ch(sz, f, FALSE, 0, lz, lo, FALSE, dd, k) :
+                             lo \in {0, 1}, lzl \in BOOLEAN, dd \in DDs, ae \in {"none", "before", "after"} } : Legal(c) }
+FewChoices(k) == { c \in { Ch(sz, f, FALSE, 0, lz, lo, FALSE, dd, k, "none") :
                             sz \in SmallSizes, f \in {{}, {"off"}, {"us", "cs", "off"}}, lz \in BOOLEAN, lo \in {0, 1},
                             dd \in {"none", "sig32"} } : Legal(c) }
 Archives ==
